@@ -252,7 +252,9 @@ pub fn build_script(w: &World, n: &Node, uids: &BTreeMap<*const Node, usize>) ->
             }
             for i in 0..n.events {
                 // (the type itself starts with "wasm-": the prefix is added unconditionally; seed C04e)
-                s = s.then(Step::Event { ty: format!("wasm-ev{}", i), attrs: vec![("k".into(), format!("n{}", uid))] });
+                // every other node's custom events carry no attributes of their own (seed C04g)
+                let attrs = if uid % 2 == 1 { vec![] } else { vec![("k".into(), format!("n{}", uid))] };
+                s = s.then(Step::Event { ty: format!("wasm-ev{}", i), attrs });
             }
             if let Some(d) = &n.data {
                 s = s.then(Step::Data { data: Some(Binary::from(d.clone())) });
@@ -403,7 +405,7 @@ impl<'a> Interp<'a> {
                     out.events.push(format!("wasm@{}[{}]", n.depth, (0..n.attrs).map(|i| format!("a{}=n{}", i, uid)).collect::<Vec<_>>().join(",")));
                 }
                 for i in 0..n.events {
-                    out.events.push(format!("wasm-wasm-ev{}@{}[k=n{}]", i, n.depth, uid));
+                    out.events.push(if uid % 2 == 1 { format!("wasm-wasm-ev{}@{}[]", i, n.depth) } else { format!("wasm-wasm-ev{}@{}[k=n{}]", i, n.depth, uid) });
                 }
                 out.data = n.data.clone();
                 self.dispatch(n.depth, children, &mut s2, &mut out)?;
